@@ -392,13 +392,17 @@ fn splice(printed: &str, d: &Directive, nloops: usize, nrets: usize) -> Result<S
                 loop_hi.insert(k, hi.clone());
                 // `$out`: the accumulator the normaliser declared immediately before this loop (`let mut __out_x ..` / `let mut __acc_x ..`)
                 // (normaliser temporaries `let __src_x = ..` / `let __hi_x = ..` may sit between the accumulator and the loop)
+                let mut back = 0;
                 for pl in out.iter().rev() {
                     let t = pl.trim_start();
                     if let Some(rest) = t.strip_prefix("let mut __") {
                         let name: String = rest.chars().take_while(|c| c.is_alphanumeric() || *c == '_').collect();
                         if ["out", "acc", "max", "any", "all", "position"].iter().any(|p| name.starts_with(p)) { loop_out.insert(k, format!("__{name}")); break; }
                     }
-                    if !(t.starts_with("let __") || t.starts_with("let mut __")) { break; }
+                    // normaliser temporaries (possibly multi-line `let __hi_x = if .. { .. } else { .. };`) may intervene; another loop ends the search
+                    if t.starts_with("for ") || t.starts_with("while ") || t.starts_with("loop ") || t.starts_with("invariant") || t.starts_with("__vx_") { break; }
+                    back += 1;
+                    if back > 16 { break; }
                 }
                 if let Ok(pth) = std::env::var("VX_LOOPVARS") {
                     use std::io::Write;
